@@ -328,6 +328,8 @@ type gen struct {
 	conflict      bool
 	refIDs        map[string]int // refer key -> output reference id
 	nickIDs       map[string]int
+	force         [][2]int // scripted block: (kind code, producer) pairs instead of random picks
+	scripted      bool
 }
 
 func (g *gen) newRef(tx interfaces.Transaction) int {
@@ -350,10 +352,17 @@ func (g *gen) block(height uint32) *blockd {
 	used := map[int]bool{}
 	ntx := int(g.rng.PickI64(0, 1, 1, 2, 2, 3, 4))
 	lock := g.a.abt.ChainParams.CRConfiguration.DepositLockupBlocks
+	if g.scripted {
+		ntx = len(g.force)
+	}
 	for k := 0; k < ntx; k++ {
 		i := g.rng.Intn(len(keys))
+		kind := g.rng.Intn(9)
+		if g.scripted {
+			kind, i = g.force[k][0], g.force[k][1]
+		}
 		exists, st, p := g.producerState(i)
-		switch g.rng.Intn(9) {
+		switch kind {
 		case 0, 1:
 			if !exists && !used[i] {
 				g.nick++
@@ -605,20 +614,49 @@ func main() {
 
 	sh := &lib.Shards{Dir: run.Out, Imports: "From ELA Require Import corr.C21_corr.", CaseType: "C21_corr.case",
 		Mismatch: "C21_corr.mismatches", Scope: "Z", PerShard: 6}
-	ntraces := run.N(40, 1500)
+	// corpus: scripted traces (block index -> forced transactions), run first
+	const (
+		kReg, kUpd, kCancel, kReturn, kTopup = 0, 2, 3, 7, 8
+	)
+	type script struct {
+		kind string
+		c    cfg
+		n    int
+		txs  map[int][][2]int
+	}
+	corpus := []script{
+		// fixed: LastIrreversibleHeight not restored (bookkeeping on from the first block)
+		{"corpus:lih", cfg{Lockup: 3, LihStart: 0}, 12, map[int][][2]int{0: {{kReg, 0}}}},
+		// fixed: DepositOutputs written outside history (top-up in the last blocks)
+		{"corpus:topup", cfg{Lockup: 3, LihStart: -1}, 10, map[int][][2]int{0: {{kReg, 0}, {kReg, 1}}, 7: {{kTopup, 0}}, 9: {{kTopup, 1}}}},
+		// cancel in the very block that activates the pending producer, then cancel again
+		{"corpus:cancel-in-activation-block", cfg{Lockup: 3, LihStart: -1}, 10, map[int][][2]int{0: {{kReg, 2}}, 5: {{kCancel, 2}}, 7: {{kCancel, 2}}}},
+		// register, update, cancel, lock-up, return
+		{"corpus:lifecycle", cfg{Lockup: 2, LihStart: 2}, 14, map[int][][2]int{0: {{kReg, 3}, {kReg, 4}}, 2: {{kUpd, 3}}, 7: {{kCancel, 3}}, 8: {{kTopup, 4}}, 10: {{kReturn, 3}}, 12: {{kCancel, 4}}}},
+	}
+	ntraces := run.N(40, 1500) + len(corpus)
 	for t := 0; t < ntraces; t++ {
 		c := cfg{Lockup: uint32(rng.Range(2, 4)), LihStart: -1}
 		if rng.Chance(40) {
 			c.LihStart = rng.Range(0, 8)
 		}
-		a := newInst(c)
-		g := &gen{rng: rng, a: a, deposits: map[int][]string{}, allowConflict: rng.Chance(15), refIDs: map[string]int{}, nickIDs: map[string]int{}}
-		start := a.abt.ChainParams.VoteStartHeight
 		n := rng.Range(10, 26)
+		var sc *script
+		if t < len(corpus) {
+			sc = &corpus[t]
+			c, n = sc.c, sc.n
+		}
+		a := newInst(c)
+		g := &gen{rng: rng, a: a, deposits: map[int][]string{}, allowConflict: rng.Chance(15) || sc != nil, refIDs: map[string]int{}, nickIDs: map[string]int{},
+			scripted: sc != nil}
+		start := a.abt.ChainParams.VoteStartHeight
 		var blocks []*blockd
 		snaps := []snap{takeSnap(a.abt)} // snaps[i] = after i blocks
 		var obs, rbs []string
 		for i := 0; i < n; i++ {
+			if sc != nil {
+				g.force = sc.txs[i]
+			}
 			b := g.block(start + uint32(i))
 			blocks = append(blocks, b)
 			a.process(b.real())
@@ -715,7 +753,11 @@ func main() {
 				fmt.Fprintf(&key, "%d:%s:%d;", b.Height-start, d.Kind, d.P)
 			}
 		}
-		st.Count(key.String(), changed, fmt.Sprintf("trace:lih=%v", c.LihStart >= 0))
+		kindName := fmt.Sprintf("trace:lih=%v", c.LihStart >= 0)
+		if sc != nil {
+			kindName = sc.kind
+		}
+		st.Count(key.String(), changed, kindName)
 		if modelled {
 			bl := make([]string, len(blocks))
 			for i, b := range blocks {
